@@ -36,3 +36,78 @@ Proof. exists []. vm_compute. reflexivity. Qed.
 (* the repaired function on the same inputs *)
 Example fixed_on_witnesses : unpad (pad []) = Ok [] /\ unpad [] = Err.
 Proof. vm_compute. split; reflexivity. Qed.
+
+(* ------------------------------------------------------------------------- *)
+(* Pinned variants of seeded changes that the check detects (seeded/C18-3, seeded/C18-1). *)
+From GZ Require Import C18.Server.
+
+(* seeded/C18-3: engine.signatureVerifier takes the private keys from ONE engine-wide map
+   fingerprint -> decrypter, filled by every signature group (a fingerprint that is already
+   there is kept: the first one wins) and handed, by reference, to all of them.  So every
+   signature group verifies against the union of all groups' keys. *)
+Definition pinned_shared_keys (gs : list group) : list (Z * Z) :=
+  (* find_key lets the LAST entry win, the shared map keeps the FIRST: reverse *)
+  rev (flat_map (fun g => match g_sig g with Some sc => sg_keys sc | None => [] end) gs).
+
+Definition pinned_share (gs : list group) (b : bound) : bound :=
+  match b_ver b with
+  | VSig sc => mkBound (b_route b) (b_jwt b) (VSig (mkSig (sg_strict sc) (pinned_shared_keys gs) (sg_tol sc)))
+  | _ => b
+  end.
+
+Definition pinned_bind_shared (key_ok : Z -> bool) (gs : list group) : list bound :=
+  map (pinned_share gs) (fst (bind key_ok gs [])).
+
+(* two strict groups: A (route 1) accepts fingerprint 1 -> key 1, B (route 2) fingerprint 2 -> key 2 *)
+Definition pin_secret := mkSecret (Some 3) 1 (Some 500) (Some 0).
+Definition pin_rsa (kid sc : Z) : option cs_secret :=
+  if ((kid =? 1) && (sc =? 1)) || ((kid =? 2) && (sc =? 2)) then Some pin_secret else None.
+Definition pin_cmac (k : Z) (c : content) : Z :=
+  let '(a, b, p, q, d) := c in k + 10 * a + 100 * b + 1000 * p + 10000 * q + 100000 * d.
+Definition pin_groups :=
+  [ mkGroup None (Some (mkSig true [(1, 1)] 10)) [(3, 1)];
+    mkGroup None (Some (mkSig true [(2, 2)] 10)) [(3, 2)] ].
+(* a request to A's route carrying B's credentials: fingerprint 2, secret encrypted to key 2 *)
+Definition pin_req :=
+  mkSreq 0 CMissing 505 (mkReq 3 1 1 None (mkHdr (Some 2) (Some 2) (Some (pin_cmac 3 (1, 3, 1, 1, 9)))) 0 []) [].
+Definition pin_serve (tab : list bound) :=
+  snd (serve false (fun _ _ _ => 0) pin_rsa pin_cmac (fun _ => 9) (fun _ => true) (fun _ b => b) (fun _ b => b)
+             (fun b => b) (fun b => Some b) 1024 tab [] pin_req).
+
+(* with the shared map A's handler runs for B's key; the modelled engine answers 403 *)
+Theorem pinned_shared_decrypters_refuted :
+  o_ran (s_out (pin_serve (pinned_bind_shared (fun _ => true) pin_groups))) = true /\
+  find_key 2 [(1, 1)] = None /\
+  s_out (pin_serve (fst (bind (fun _ => true) pin_groups []))) = mkHout false 403 [] [] false.
+Proof. vm_compute. repeat split; reflexivity. Qed.
+
+(* seeded/C18-1: TokenParser remembers (secret, raw token) pairs that verified once and returns
+   them again without re-checking signature or time claims. *)
+Section PinnedCache.
+  Variable mac : alg -> Z -> Z -> Z.
+
+  Definition tok_key (t : token) : Z * Z := (tinput t, match tsig t with Some s => s | None => -1 end).
+
+  Definition cache_hit (cache : list (Z * (Z * Z))) (k : Z) (t : token) : bool :=
+    existsb (fun e => (fst e =? k) && (fst (snd e) =? fst (tok_key t)) && (snd (snd e) =? snd (tok_key t))) cache.
+
+  (* one secret, for brevity *)
+  Definition pinned_cached_parse (cache : list (Z * (Z * Z))) (k now : Z) (t : token) : list (Z * (Z * Z)) * bool :=
+    if cache_hit cache k t then (cache, true)
+    else if parse1 mac now k t then ((k, tok_key t) :: cache, true) else (cache, false).
+
+  Fixpoint pinned_cached_run (cache : list (Z * (Z * Z))) (k : Z) (reqs : list (Z * token)) : list bool :=
+    match reqs with
+    | [] => []
+    | (now, t) :: reqs' => let '(c', ok) := pinned_cached_parse cache k now t in ok :: pinned_cached_run c' k reqs'
+    end.
+End PinnedCache.
+
+(* the same token, first while valid, then after its exp: the cached parser accepts both, the
+   modelled one rejects the second *)
+Theorem pinned_token_cache_refuted :
+  let mac := fun (a : alg) (k i : Z) => k + 10 * i in
+  let t := mkToken HS256 7 (Some (mac HS256 1 7)) [(2, VNum 2000)] in
+  pinned_cached_run mac [] 1 [(1000, t); (3000, t)] = [true; true] /\
+  map jran (run_jwt mac [] (mkJcfg 1 None) [(1000, CToken t); (3000, CToken t)]) = [true; false].
+Proof. vm_compute. split; reflexivity. Qed.
